@@ -615,11 +615,16 @@ class MolQuery(object):
         maxMatches = 10000
         rdkit_matches = mol.GetSubstructMatches(self.mol, uniquify=False,
                                                 maxMatches=maxMatches)
-        lenMatches = len(rdkit_matches)
-        if lenMatches == maxMatches:
-            print('\nMax RDKit substructure matches exceeded. All groups in',
-                  'molecule may not have been determined.')
-            print(Chem.MolToSmiles(Chem.RemoveHs(mol)))
+        # A full batch may be a truncated one: ask again for more rather
+        # than silently dropping matches.
+        while len(rdkit_matches) == maxMatches:
+            if maxMatches >= 10000000:
+                raise ValueError(
+                    'More than %d substructure matches of the pattern in %s'
+                    % (maxMatches, Chem.MolToSmiles(Chem.RemoveHs(mol))))
+            maxMatches *= 10
+            rdkit_matches = mol.GetSubstructMatches(self.mol, uniquify=False,
+                                                    maxMatches=maxMatches)
         if debug:
             print('structure matches:' + str(rdkit_matches))
         # if no rdkit match
